@@ -37,7 +37,7 @@ UNITS = [
     ('-l', 'my file.log'), ('-l', 'q"z.log'), ('-l', 'back\\slash.log'), ('--libwayland', LIBDIR), ('--verbose',),
     ('-pr',), ('-f',), ('a b',), ('q"z',), ('back\\slash',), ('',), ('-x',), ('-pC',), ('-f', '(="a\\tb")'),
     ('new\nline',), ('-l', 'C:\\new\\table.log'),
-    ('-f', '(="\U0001F600")'), ('-b', '(="é\u2028")'),
+    ('-f', '(="\U0001F600")'), ('-b', '(="é\u2028")'), ('-l', ''), ('--',),
 ]
 MARKER_UNITS = {('-r',), ('-g',), ('--run',), ('--gdb',), ('-Cr',), ('-Cg',), ('-pr',)}
 
@@ -224,7 +224,7 @@ def eval_gdb_python(cmd):
 def gen_cli(tier):
     lefts = [[], ['-C'], ['-f', 'wl_pointer'], ['--supress', '-b', '(="a b")'], ['-f', '! .motion', '-C'],
              ['-f', '(="q\\z")'], ['-f', '(="a\\tb")'], ['-f', '(="\U0001F600 é\u2028")']]
-    rights = [[], ['-f', '-r', '--gdb', '-Cg'], ['a b', 'q"z', 'back\\slash', ''], ['--run', '-p', '-l', 'x']]
+    rights = [[], ['-f', '-r', '--gdb', '-Cg'], ['a b', 'q"z', 'back\\slash', ''], ['--run', '-p', '-l', 'x'], ['--', '-x', '--']]
     markers = ['-r', '--run'] if tier == 'quick' else ['-r', '--run', '-Cr']
     for l in lefts:
         for r in rights:
